@@ -144,6 +144,18 @@ func init() {
 			return Val{T: strT, S: r}
 		}, writes: noWrites}
 
+		bigString := model{apply: func(fv *FnVerifier, c *ssa.CallCommon, args []Val, st *State, pos token.Pos, name string) Val {
+			// read-only; decimal text is an injective function of the value (nil receiver prints "<nil>", no panic)
+			fv.q.declareFun("big.str", []string{"Int"}, "Str")
+			fv.q.declareFun("big.unstr", []string{"Str"}, "Int")
+			v := fv.loadBig(st, args[0].S)
+			r := fv.q.bind(name, "Str", "(big.str "+v+")")
+			fv.q.assume("(= (big.unstr " + r + ") " + v + ")")
+			fv.q.assume(fv.wf(r, types.Typ[types.String], st))
+			fv.note("model: big.Int.String() is an injective function of the value; no heap effect")
+			return Val{T: types.Typ[types.String], S: r}
+		}, writes: noWrites}
+		models["(*math/big.Int).String"] = bigString
 		models["(*math/big.Int).SetBytes"] = model{apply: func(fv *FnVerifier, c *ssa.CallCommon, args []Val, st *State, pos token.Pos, name string) Val {
 			fv.bigNonNil(args[0], "z", pos)
 			fv.frameCheckKey(st, "big", args[0].S, pos, "big:"+fv.exprText(c.Args[0]))
